@@ -42,8 +42,8 @@ class VerifTask(Task):
         k, n = script["k"], script["n"]
         prog = int(ctx.get("prog." + self.tname, 0))
         jumps = int(ctx.get("_jump_count", 0))
-        sig = "_signal_name" in ctx and ctx.get("_signal_name") not in (None, "")
-        entry = {"task": self.tname, "prog": prog, "jumps": jumps, "sig": bool(sig),
+        sig = str(ctx.get("_signal_name") or "")
+        entry = {"task": self.tname, "prog": prog, "jumps": jumps, "sig": sig,
                  "view": user_view(ctx)}
         with LEDGER_LOCK:
             prior = LEDGER.count(self.tname)
@@ -72,8 +72,12 @@ class VerifTask(Task):
                 targets = script["target"].split(",")
                 return TaskResult.jump_to(targets[min(jumps, len(targets) - 1)])
             return TaskResult.success(outputs=out)
-        if k == "suspend":
-            if sig:
-                return TaskResult.success(outputs=out)
-            return TaskResult.suspend()
+        if k == "suspend":     # counts each distinct signal name it is resumed with; needs n of them (1 by default)
+            seen = list(ctx.get("seen." + self.tname, []))
+            if sig and sig not in seen:
+                seen.append(sig)
+            upd = {"seen." + self.tname: seen}
+            if len(seen) >= max(1, n):
+                return TaskResult.success(outputs=out, context=upd)
+            return TaskResult.suspend(context=upd)
         raise RuntimeError("unknown script " + k)
